@@ -1,29 +1,14 @@
-"""Table of the Python functions whose Gallina model is regenerated from /repo on every run."""
+"""Table of the Python functions whose Gallina model is regenerated from /repo on every run.
+Merged from harness/specs/Cxx.py (one file per property, each defining SPECS = {GenModuleName: spec})."""
+import importlib
+import pkgutil
 
-Z2 = [("x", "Z"), ("y", "Z")]
+import specs
 
-SPECS = {
-    "GenPairing": {
-        "file": "rpylib/distribution/pairing.py",
-        "dom": "Z",
-        "calls": {"mapping_to_z": "mapping_to_z", "projection_to_z": "projection_to_z"},
-        "funcs": [
-            {"py": "Cantor.pairing2d", "coq": "cantor_pairing2d", "args": Z2, "ret": "Z", "pyargs": ["x", "y"]},
-            {"py": "Cantor.projection2d", "coq": "cantor_projection2d", "args": [("z", "Z")], "ret": "Z * Z", "pyargs": ["z"]},
-            {"py": "RosenbergStrong.pairing2d", "coq": "rs_pairing2d", "args": Z2, "ret": "Z", "pyargs": ["x", "y"]},
-            {"py": "RosenbergStrong.projection2d", "coq": "rs_projection2d", "args": [("z", "Z")], "ret": "Z * Z", "pyargs": ["z"]},
-            {"py": "Szudzik.pairing2d", "coq": "szudzik_pairing2d", "args": Z2, "ret": "Z", "pyargs": ["x", "y"]},
-            {"py": "Szudzik.projection2d", "coq": "szudzik_projection2d", "args": [("z", "Z")], "ret": "Z * Z", "pyargs": ["z"]},
-            {"py": "PepisKalmar.pairing2d", "coq": "pk_pairing2d", "args": Z2, "ret": "Z", "pyargs": ["x", "y"]},
-            {"py": "mapping_to_z", "coq": "mapping_to_z", "args": [("n", "Z")], "ret": "Z", "pyargs": ["n"]},
-            {"py": "projection_to_z", "coq": "projection_to_z", "args": [("z", "Z")], "ret": "Z", "pyargs": ["z"]},
-            {"py": "PairingToZ1d._projection_with_switch_to_right", "coq": "z1d_proj_right", "pyargs": ["x"],
-             "args": [("left", "Z"), ("x", "Z")], "ret": "Z", "attrs": {"self.left": "left"}},
-            {"py": "PairingToZ1d._projection_with_switch_to_left", "coq": "z1d_proj_left", "pyargs": ["x"],
-             "args": [("right", "Z"), ("x", "Z")], "ret": "Z", "attrs": {"self.right": "right"}},
-            {"py": "PairingToZ1d.pair", "coq": "z1d_pair", "pyargs": ["x"],
-             "args": [("left", "Z"), ("right", "Z"), ("omit", "Z"), ("x", "Z")], "ret": "Z",
-             "attrs": {"self.left": "left", "self.right": "right", "self._omitting_zero": "omit"}},
-        ],
-    },
-}
+SPECS = {}
+for _m in sorted(pkgutil.iter_modules(specs.__path__), key=lambda m: m.name):
+    _mod = importlib.import_module(f"specs.{_m.name}")
+    for _k, _v in _mod.SPECS.items():
+        if _k in SPECS:
+            raise RuntimeError(f"duplicate Gen module name {_k}")
+        SPECS[_k] = _v
